@@ -274,6 +274,10 @@ def apply_contract(ip, con, fr, args, kwargs, st, node=None):
         for e in con.ensures:
             v = ip.eval_spec(e, st, env)
             st.assume(ip._z(ip.truth(v, st)))
+        if con.use:
+            # lemma instances the contract carries for its clients (sound anywhere: they are instances of proved lemmas)
+            from .specs import use_lemmas
+            use_lemmas(ip, st, con.use, env)
         return res
     finally:
         st.pop_frame()
